@@ -81,6 +81,25 @@ reg("C34","fwd","fault_enumeration","enumeration of every byte corruption and tr
     "real client and server halves of the agent magic-number and version handshakes through a relay: clean run accepted by both; scripted different-version and wrong-magic peers rejected; for every byte index of each direction a flip (16 values quick, 255 thorough) or truncation makes the half that received damaged bytes fail; no half returns nil having consumed anything but the expected bytes.",
     "a side that finished before the damage is not required to fail retroactively (counted, not judged)")
 
+reg("C27","procs","fault_enumeration","strace-injected SIGKILL / errno at every syscall of the atomic write in a child process, target re-read afterwards",
+    "a child writes `old`, then between marker syscalls calls the real WriteFileAtomic / MarshalAndSaveProtobuf with `new`; for every syscall index in the bracket (openat, write, close, fchmodat, renameat, and the clean-up path) one run is killed just before it and one gets an errno (zero-byte and RLIMIT_FSIZE short writes too), plus second-order faults in the failure path: the target is exactly old or exactly new, consistent with what the child reported, and only Mutagen temporaries are left.",
+    "process crash, not power loss; an injection that the run's own strace log does not show inside the bracket is inconclusive")
+reg("C28","procs","exploration","interval-overlap checking of a cross-process CLOCK_MONOTONIC journal + porcupine lock model, with random SIGKILLs",
+    "8 (quick) / 32 (thorough) child processes race the real daemon.AcquireLock on one data directory, write and re-read a pid cell while holding, release or get SIGKILLed: definite-hold intervals never overlap, a foreign pid is never seen while holding, every refusal overlaps a possible hold of another process, and the history is linearizable against a lock model in which killed-in-flight attempts may or may not have acquired.",
+    "bounded by acquisition counts; a porcupine timeout is inconclusive for the cross-check only")
+reg("C35","procs","exploration","process-state observation after the real transport stream Close on fake agents with four termination behaviours",
+    "transport.NewStream over exec.Cmd of a fake agent that exits by itself / on stdin close / on SIGTERM only / never: Close must return within a control-relative bound and the pid must be gone (kill(pid,0)=ESRCH); latency recorded, not judged.",
+    "'always returns' restated as return within up to five 30 s windows with a healthy heartbeat")
+reg("C36","procs","exploration","recording fake ssh/scp/docker executables + argv parsing with each tool's documented option grammar",
+    "random SSH and Docker URLs whose user/host/container start with '-' or look like options -> real url.Parse/EnsureValid -> real transports (Command, Copy, probing) with recorders on PATH: either the URL/transport is rejected and no recorder ran, or every recorded argv parses (getopt for ssh/scp, pflag rules for docker exec/cp/stop/start) to exactly the intended options with the URL components as operands. Both possible repairs (reject, or `--`) are accepted; partial repairs are reported.",
+    "option grammars of ssh, scp and docker are modelled by the harness (scp checked against /usr/bin/scp)")
+reg("C43","procs","exploration","disk re-observation after the real Housekeep on a populated scratch data directory with a watched canary outside",
+    "agent versions, caches and staging roots with atime/mtime set to threshold +- {1 h, 1 d, 10 d}, symlinks pointing to a canary tree outside, unrelated files: after housekeeping.Housekeep() stale artifacts are gone, recent ones intact, the canary and everything outside the data directory untouched (content snapshot + inotify with a liveness control).",
+    "times are never closer than 1 h to a threshold, so clock drift during the run is irrelevant")
+reg("C46","procs","exploration","child-process probe of the real ExecutableForPlatform over generated bundle layouts",
+    "the monitor copies itself to <scratch>/bin and builds tar.gz bundles with distinct per-platform payloads in the executable's directory, in libexec, in both or in neither: the extracted bytes are the executable-directory bundle's entry when that bundle exists, else libexec's; unknown platforms and missing bundles are errors; the extracted file is executable.",
+    "layouts use the FHS bin/libexec convention the code looks for")
+
 NOT_APPLICABLE = {}
 def main():
     props=[json.loads(l)["id"] for l in open("/verif/properties.jsonl")]
